@@ -1,5 +1,5 @@
 (* "Printer then parser" at the level of one UniPROBE line: nom's float recogniser
-   on canonical decimal tokens, many1(preceded(tab, float)), the column line and
+   on float tokens (the whole decimal grammar of IoPrintU.wf_dec), many1(preceded(tab, float)), the column line and
    the name line. *)
 From Coq Require Import List NArith ZArith Bool Arith Lia.
 From LMBase Require Import Res ListX IEEE.
@@ -70,32 +70,120 @@ Proof.
     eexists; eexists. apply opt_ok. exact (digit1_ok d b x r Hd Hb Hx).
 Qed.
 
-(* ---------- canonical decimal tokens ---------- *)
+Lemma map_err : forall {A B} (f : A -> B) (p : parser A) i k, p i = PErr k -> p_map f p i = PErr k.
+Proof. intros A B f p i k H. unfold p_map. rewrite H. reflexivity. Qed.
 
-Lemma wf_dec_inv : forall t, wf_dec t = true ->
-  exists d a b, is_digit d = true /\ forallb is_digit a = true /\
-    (t = d :: a \/ (t = (d :: a) ++ 46%N :: b /\ forallb is_digit b = true)).
+Lemma alt_ok2 : forall {A} (p q : parser A) i k r n a,
+  p i = PErr k -> q i = POk r n a -> p_alt p q i = POk r n a.
+Proof. intros A p q i k r n a H1 H2. unfold p_alt. rewrite H1. exact H2. Qed.
+
+Lemma cut_ok : forall {A} (p : parser A) i r n a, p i = POk r n a -> p_cut p i = POk r n a.
+Proof. intros A p i r n a H. unfold p_cut. rewrite H. reflexivity. Qed.
+
+(* ---------- float tokens: SIGN? (DIGITS ('.' DIGITS?)? | '.' DIGITS) ([eE] SIGN? DIGITS)? ---------- *)
+
+Definition sign_part (S : list N) : Prop := S = [] \/ exists s, S = [s] /\ is_sign s = true.
+
+Definition mant_part (M : list N) : Prop :=
+  exists d a, is_digit d = true /\ forallb is_digit a = true /\
+    (M = d :: a \/
+     (exists b, forallb is_digit b = true /\ M = (d :: a) ++ 46%N :: b) \/
+     M = 46%N :: d :: a).
+
+Definition exp_part (E : list N) : Prop :=
+  E = [] \/
+  exists c S d ds, (c = 101%N \/ c = 69%N) /\ sign_part S /\ is_digit d = true /\
+                   forallb is_digit ds = true /\ E = c :: S ++ d :: ds.
+
+Lemma strip_sign_inv : forall t, exists S, sign_part S /\ t = S ++ strip_sign t.
 Proof.
-  intros t H. unfold wf_dec in H.
-  pose proof (span_split is_digit t) as Es. pose proof (span_fst_all is_digit t) as Ha.
-  revert H Es Ha. destruct (span is_digit t) as [a rr]. cbn [fst snd]. intros H Es Ha.
-  apply andb_true_iff in H. destruct H as [Hn Hr].
-  destruct a as [|d a]; [discriminate Hn|].
-  cbn [forallb] in Ha. apply andb_true_iff in Ha. destruct Ha as [Hd Ha].
-  exists d, a.
-  destruct rr as [|c b].
-  - exists []. rewrite app_nil_r in Es. auto.
-  - apply andb_true_iff in Hr. destruct Hr as [Hc Hb]. apply N.eqb_eq in Hc. subst c.
-    exists b. auto.
+  intros t. destruct t as [|c r].
+  - exists []. split; [left; reflexivity|reflexivity].
+  - unfold strip_sign. destruct (is_sign c) eqn:E.
+    + exists [c]. split; [right; exists c; auto|reflexivity].
+    + exists []. split; [left; reflexivity|reflexivity].
 Qed.
 
-Lemma sign_none : forall i d l, i = d :: l -> is_digit d = true -> p_sign i = POk i 0 None.
+Lemma wf_mant_inv : forall l r, wf_mant l = Some r -> exists M, mant_part M /\ l = M ++ r.
 Proof.
-  intros i d l E Hd. subst i.
-  assert (H43 : d <> 43%N) by (intros E; subst d; discriminate Hd).
-  assert (H45 : d <> 45%N) by (intros E; subst d; discriminate Hd).
-  unfold p_sign. apply (opt_err _ _ KChar).
-  rewrite (alt_err _ _ _ _ (char_fail 43 d l H43)). exact (char_fail 45 d l H45).
+  intros l r H. unfold wf_mant in H.
+  pose proof (span_split is_digit l) as Es. pose proof (span_fst_all is_digit l) as Ha.
+  revert H Es Ha. destruct (span is_digit l) as [a rr]. cbn [fst snd]. intros H Es Ha.
+  destruct a as [|d a].
+  - destruct rr as [|c r']; [discriminate H|].
+    destruct (N.eqb c 46) eqn:Ec; [|discriminate H]. apply N.eqb_eq in Ec. subst c.
+    pose proof (span_split is_digit r') as Es'. pose proof (span_fst_all is_digit r') as Hb.
+    revert H Es' Hb. destruct (span is_digit r') as [b r'']. cbn [fst snd]. intros H Es' Hb.
+    destruct b as [|d b]; [discriminate H|]. inversion H. subst r''.
+    cbn [forallb] in Hb. apply andb_true_iff in Hb. destruct Hb as [Hd Hb].
+    exists (46%N :: d :: b). split.
+    + exists d, b. split; [exact Hd|]. split; [exact Hb|]. right. right. reflexivity.
+    + rewrite Es. rewrite Es'. reflexivity.
+  - cbn [forallb] in Ha. apply andb_true_iff in Ha. destruct Ha as [Hd Ha].
+    destruct rr as [|c r'].
+    + inversion H. subst r. exists (d :: a). split; [|exact Es].
+      exists d, a. split; [exact Hd|]. split; [exact Ha|]. left. reflexivity.
+    + destruct (N.eqb c 46) eqn:Ec.
+      * apply N.eqb_eq in Ec. subst c. inversion H.
+        exists ((d :: a) ++ 46%N :: fst (span is_digit r')). split.
+        -- exists d, a. split; [exact Hd|]. split; [exact Ha|]. right. left.
+           exists (fst (span is_digit r')). split; [apply span_fst_all|reflexivity].
+        -- rewrite Es. rewrite <- app_assoc. cbn [app].
+           rewrite <- (span_split is_digit r'). reflexivity.
+      * inversion H. subst r. exists (d :: a). split; [|exact Es].
+        exists d, a. split; [exact Hd|]. split; [exact Ha|]. left. reflexivity.
+Qed.
+
+Lemma wf_exp_inv : forall E, wf_exp E = true -> exp_part E.
+Proof.
+  intros E H. destruct E as [|c r]; [left; reflexivity|]. right.
+  unfold wf_exp in H.
+  apply andb_true_iff in H. destruct H as [H H3].
+  apply andb_true_iff in H. destruct H as [H1 H2].
+  destruct (strip_sign_inv r) as [S [HS Er]].
+  remember (strip_sign r) as sr eqn:Esr.
+  destruct sr as [|d ds]; [discriminate H2|].
+  cbn [forallb] in H3. apply andb_true_iff in H3. destruct H3 as [Hd Hds].
+  exists c, S, d, ds. split.
+  - apply orb_true_iff in H1. destruct H1 as [H1|H1]; apply N.eqb_eq in H1; auto.
+  - split; [exact HS|]. split; [exact Hd|]. split; [exact Hds|]. rewrite Er. reflexivity.
+Qed.
+
+Lemma wf_dec_inv : forall t, wf_dec t = true ->
+  exists S M E, sign_part S /\ mant_part M /\ exp_part E /\ t = S ++ M ++ E.
+Proof.
+  intros t H. unfold wf_dec in H.
+  destruct (strip_sign_inv t) as [S [HS Et]].
+  destruct (wf_mant (strip_sign t)) as [r0|] eqn:Em; [|discriminate H].
+  destruct (wf_mant_inv _ _ Em) as [M [HM El]].
+  exists S, M, r0. split; [exact HS|]. split; [exact HM|]. split; [exact (wf_exp_inv r0 H)|].
+  rewrite <- El. exact Et.
+Qed.
+
+Lemma digit_not : forall d, is_digit d = true -> d <> 43%N /\ d <> 45%N /\ d <> 46%N.
+Proof.
+  intros d H. repeat split; intros E; subst d; discriminate H.
+Qed.
+
+Lemma mant_head : forall M, mant_part M -> exists c l, M = c :: l /\ c <> 43%N /\ c <> 45%N.
+Proof.
+  intros M [d [a [Hd [Ha [E|[[b [Hb E]]|E]]]]]]; subst M.
+  - destruct (digit_not d Hd) as [H1 [H2 _]]. eexists; eexists. split; [reflexivity|]. auto.
+  - destruct (digit_not d Hd) as [H1 [H2 _]]. cbn [app]. eexists; eexists. split; [reflexivity|]. auto.
+  - eexists; eexists. split; [reflexivity|]. split; discriminate.
+Qed.
+
+Lemma sign_ok : forall S c l, sign_part S -> c <> 43%N -> c <> 45%N ->
+  exists n o, p_sign (S ++ c :: l) = POk (c :: l) n o.
+Proof.
+  intros S c l [E|[s [E Hs]]] H43 H45; subst S; cbn [app].
+  - eexists; eexists. unfold p_sign. apply (opt_err _ _ KChar).
+    rewrite (alt_err _ _ _ _ (char_fail 43 c l H43)). exact (char_fail 45 c l H45).
+  - unfold is_sign in Hs. apply orb_true_iff in Hs.
+    destruct Hs as [Hs|Hs]; apply N.eqb_eq in Hs; subst s.
+    + eexists; eexists. unfold p_sign. eapply opt_ok. eapply alt_ok1. apply char_ok.
+    + eexists; eexists. unfold p_sign. eapply opt_ok. eapply alt_ok2; [|apply char_ok].
+      apply char_fail. discriminate.
 Qed.
 
 Lemma exponent_none : forall x r, x <> 101%N -> x <> 69%N ->
@@ -106,30 +194,56 @@ Proof.
   rewrite (alt_err _ _ _ _ (char_fail 101 x r H1)). exact (char_fail 69 x r H2).
 Qed.
 
-Lemma mantissa_ok : forall t x r, wf_dec t = true -> is_digit x = false -> x <> 46%N ->
-  exists n, p_float_mantissa (t ++ x :: r) = POk (x :: r) n tt.
+Lemma exponent_ok : forall E x r, exp_part E -> is_digit x = false -> x <> 101%N -> x <> 69%N ->
+  exists n, p_float_exponent (E ++ x :: r) = POk (x :: r) n tt.
 Proof.
-  intros t x r Hw Hx H46.
-  destruct (wf_dec_inv t Hw) as [d [a [b [Hd [Ha [E|[E Hb]]]]]]]; subst t.
-  - pose proof (digit1_ok d a x r Hd Ha Hx) as Hd1.
-    assert (Ho : p_opt (p_pair (p_char 46) (p_opt p_digit1)) (x :: r) = POk (x :: r) 0 None).
-    { apply (opt_err _ _ KChar). apply pair_err. exact (char_fail 46 x r H46). }
+  intros E x r [HE|[c [S [d [ds [Hc [HS [Hd [Hds HE]]]]]]]]] Hx H101 H69; subst E.
+  - cbn [app]. eexists. apply exponent_none; assumption.
+  - cbn [app]. rewrite <- app_assoc. cbn [app].
+    assert (Halt : p_alt (p_char 101) (p_char 69) (c :: S ++ d :: ds ++ x :: r)
+                   = POk (S ++ d :: ds ++ x :: r) 1 c).
+    { destruct Hc; subst c.
+      - apply alt_ok1. apply char_ok.
+      - eapply alt_ok2; [|apply char_ok]. apply char_fail. discriminate. }
+    destruct (digit_not d Hd) as [H43 [H45 _]].
+    destruct (sign_ok S d (ds ++ x :: r) HS H43 H45) as [ns [o Hs]].
+    assert (Hcut : p_cut p_digit1 (d :: ds ++ x :: r) = POk (x :: r) (length (d :: ds)) (d :: ds)).
+    { apply cut_ok. exact (digit1_ok d ds x r Hd Hds Hx). }
+    eexists. unfold p_float_exponent. eapply map_tt_ok. eapply opt_ok.
+    exact (pair_ok _ _ _ _ _ _ _ _ _ Halt (pair_ok _ _ _ _ _ _ _ _ _ Hs Hcut)).
+Qed.
+
+Lemma exp_head : forall E x r, exp_part E -> is_digit x = false -> x <> 46%N ->
+  exists y s, E ++ x :: r = y :: s /\ is_digit y = false /\ y <> 46%N.
+Proof.
+  intros E x r [HE|[c [S [d [ds [Hc [_ [_ [_ HE]]]]]]]]] Hx H46; subst E.
+  - cbn [app]. eexists; eexists. split; [reflexivity|]. auto.
+  - cbn [app]. eexists; eexists. split; [reflexivity|].
+    destruct Hc; subst c; (split; [reflexivity|discriminate]).
+Qed.
+
+Lemma mantissa_ok : forall M y s, mant_part M -> is_digit y = false -> y <> 46%N ->
+  exists n, p_float_mantissa (M ++ y :: s) = POk (y :: s) n tt.
+Proof.
+  intros M y s [d [a [Hd [Ha [E|[[b [Hb E]]|E]]]]]] Hy H46; subst M.
+  - pose proof (digit1_ok d a y s Hd Ha Hy) as Hd1.
+    assert (Ho : p_opt (p_pair (p_char 46) (p_opt p_digit1)) (y :: s) = POk (y :: s) 0 None).
+    { apply (opt_err _ _ KChar). apply pair_err. exact (char_fail 46 y s H46). }
     unfold p_float_mantissa. eexists. apply alt_ok1. eapply map_tt_ok.
     exact (pair_ok _ _ _ _ _ _ _ _ _ Hd1 Ho).
-  - rewrite <- app_assoc. change ((46%N :: b) ++ x :: r) with (46%N :: (b ++ x :: r)).
-    pose proof (digit1_ok d a 46%N (b ++ x :: r) Hd Ha eq_refl) as Hd1.
-    destruct (opt_digit1_ok b x r Hb Hx) as [n2 [o Hod]].
-    pose proof (pair_ok _ _ _ _ _ _ _ _ _ (char_ok 46 (b ++ x :: r)) Hod) as Hp.
+  - rewrite <- app_assoc. change ((46%N :: b) ++ y :: s) with (46%N :: (b ++ y :: s)).
+    pose proof (digit1_ok d a 46%N (b ++ y :: s) Hd Ha eq_refl) as Hd1.
+    destruct (opt_digit1_ok b y s Hb Hy) as [n2 [o Hod]].
+    pose proof (pair_ok _ _ _ _ _ _ _ _ _ (char_ok 46 (b ++ y :: s)) Hod) as Hp.
     pose proof (opt_ok _ _ _ _ _ Hp) as Ho.
     unfold p_float_mantissa. eexists. apply alt_ok1. eapply map_tt_ok.
     exact (pair_ok _ _ _ _ _ _ _ _ _ Hd1 Ho).
-Qed.
-
-Lemma wf_dec_head : forall t, wf_dec t = true -> exists d l, t = d :: l /\ is_digit d = true.
-Proof.
-  intros t Hw. destruct (wf_dec_inv t Hw) as [d [a [b [Hd [Ha [E|[E Hb]]]]]]]; subst t.
-  - eexists; eexists; split; [reflexivity|exact Hd].
-  - cbn [app]. eexists; eexists; split; [reflexivity|exact Hd].
+  - change ((46%N :: d :: a) ++ y :: s) with (46%N :: (d :: a) ++ y :: s).
+    unfold p_float_mantissa. eexists. eapply alt_ok2.
+    + apply map_err. apply pair_err. unfold p_digit1, p_take_while1.
+      rewrite (span_stop is_digit 46%N ((d :: a) ++ y :: s) eq_refl). reflexivity.
+    + eapply map_tt_ok.
+      exact (pair_ok _ _ _ _ _ _ _ _ _ (char_ok 46 ((d :: a) ++ y :: s)) (digit1_ok d a y s Hd Ha Hy)).
 Qed.
 
 Lemma float_inner : forall t x r, wf_dec t = true ->
@@ -137,15 +251,68 @@ Lemma float_inner : forall t x r, wf_dec t = true ->
   exists n v, p_pair p_sign (p_pair p_float_mantissa p_float_exponent) (t ++ x :: r) = POk (x :: r) n v.
 Proof.
   intros t x r Hw Hx H46 H101 H69.
-  destruct (mantissa_ok t x r Hw Hx H46) as [nm Hm].
-  destruct (wf_dec_head t Hw) as [d [l [E Hd]]].
-  assert (Hs : p_sign (t ++ x :: r) = POk (t ++ x :: r) 0 None).
-  { apply (sign_none _ d (l ++ x :: r)); [rewrite E; reflexivity|exact Hd]. }
-  pose proof (pair_ok _ _ _ _ _ _ _ _ _ Hm (exponent_none x r H101 H69)) as Hme.
-  eexists; eexists. exact (pair_ok _ _ _ _ _ _ _ _ _ Hs Hme).
+  destruct (wf_dec_inv t Hw) as [S [M [E [HS [HM [HE Et]]]]]]. subst t.
+  destruct (exp_head E x r HE Hx H46) as [y [s [Ey [Hy Hy46]]]].
+  destruct (exponent_ok E x r HE Hx H101 H69) as [ne He]. rewrite Ey in He.
+  destruct (mantissa_ok M y s HM Hy Hy46) as [nm Hm].
+  destruct (mant_head M HM) as [c [l [EM [H43 H45]]]]. subst M.
+  destruct (sign_ok S c (l ++ y :: s) HS H43 H45) as [ns [o Hs]].
+  rewrite <- !app_assoc. rewrite Ey.
+  eexists; eexists.
+  exact (pair_ok _ _ _ _ _ _ _ _ _ Hs (pair_ok _ _ _ _ _ _ _ _ _ Hm He)).
 Qed.
 
-(* nom's float recogniser on a canonical decimal token followed by a char that cannot continue it *)
+(* every char of a token is a digit, a sign, a dot or e/E *)
+Definition tokc (c : N) : bool :=
+  is_digit c || N.eqb c 43 || N.eqb c 45 || N.eqb c 46 || N.eqb c 101 || N.eqb c 69.
+
+Lemma forallb_impl0 : forall (p q : N -> bool) l,
+  (forall c, p c = true -> q c = true) -> forallb p l = true -> forallb q l = true.
+Proof.
+  intros p q l Hpq. induction l as [|c l IH]; intros H; [reflexivity|].
+  cbn [forallb] in *. apply andb_true_iff in H. destruct H as [Hc H].
+  rewrite (Hpq c Hc), (IH H). reflexivity.
+Qed.
+
+Lemma digit_tokc : forall c, is_digit c = true -> tokc c = true.
+Proof. intros c H. unfold tokc. rewrite H. reflexivity. Qed.
+
+Lemma digits_tokc : forall a, forallb is_digit a = true -> forallb tokc a = true.
+Proof. intros a. apply forallb_impl0. exact digit_tokc. Qed.
+
+Lemma sign_tokc : forall S, sign_part S -> forallb tokc S = true.
+Proof.
+  intros S [E|[s [E Hs]]]; subst S; [reflexivity|].
+  unfold is_sign in Hs. apply orb_true_iff in Hs.
+  destruct Hs as [Hs|Hs]; apply N.eqb_eq in Hs; subst s; reflexivity.
+Qed.
+
+Lemma mant_tokc : forall M, mant_part M -> forallb tokc M = true.
+Proof.
+  intros M [d [a [Hd [Ha [E|[[b [Hb E]]|E]]]]]]; subst M.
+  - cbn [forallb]. rewrite (digit_tokc d Hd), (digits_tokc a Ha). reflexivity.
+  - rewrite forallb_app. cbn [forallb].
+    rewrite (digit_tokc d Hd), (digits_tokc a Ha), (digits_tokc b Hb). reflexivity.
+  - cbn [forallb]. rewrite (digit_tokc d Hd), (digits_tokc a Ha). reflexivity.
+Qed.
+
+Lemma exp_tokc : forall E, exp_part E -> forallb tokc E = true.
+Proof.
+  intros E [HE|[c [S [d [ds [Hc [HS [Hd [Hds HE]]]]]]]]]; subst E; [reflexivity|].
+  cbn [forallb]. rewrite forallb_app. cbn [forallb].
+  rewrite (sign_tokc S HS), (digit_tokc d Hd), (digits_tokc ds Hds).
+  destruct Hc; subst c; reflexivity.
+Qed.
+
+Lemma wf_dec_chars : forall t, wf_dec t = true ->
+  forallb (fun c => is_digit c || N.eqb c 43 || N.eqb c 45 || N.eqb c 46 || N.eqb c 101 || N.eqb c 69) t = true.
+Proof.
+  intros t Hw. change (forallb tokc t = true).
+  destruct (wf_dec_inv t Hw) as [S [M [E [HS [HM [HE Et]]]]]]. subst t.
+  rewrite !forallb_app. rewrite (sign_tokc S HS), (mant_tokc M HM), (exp_tokc E HE). reflexivity.
+Qed.
+
+(* nom's float recogniser on a float token followed by a char that cannot continue it *)
 Lemma float_token : forall t x r, wf_dec t = true ->
   is_digit x = false -> x <> 46%N -> x <> 101%N -> x <> 69%N ->
   p_recognize_float_or_exceptions (t ++ x :: r) = POk (x :: r) (length t) t.
